@@ -64,7 +64,7 @@ def gen_cases(tier, seed):
     npairs = 12 if tier == "quick" else 40
     for i in range(npairs):
         cases.append(dict(kind="all2x3", seed=rng.randrange(10 ** 9), shared=bool(i % 2), adapter=bool(i % 3 == 0), files=(i % 4 == 2)))
-    for i in range(60 if tier == "quick" else 1000):
+    for i in range(60 if tier == "quick" else 800):
         cases.append(dict(kind="random", seed=rng.randrange(10 ** 9), shared=bool(i % 2), adapter=bool(i % 4 == 0), files=(i % 5 == 2), k=rng.choice([2, 3]),
                           kill=rng.choice([None, "stop", "timeout", "stop"]), creation=["upfront", "lazy", "batch"][i % 3]))
     # twins: two instances that receive the same requests in lockstep on a server with an adapter; one of them times out in the middle and
